@@ -103,6 +103,16 @@ pub fn run(ctx: &mut Ctx) {
             hammer(ctx, case, &mut crng, [16usize, 8, 32, 12][k as usize % 4], [Comp::None, Comp::Zstd(1), Comp::Lz4(1), Comp::None][k as usize % 4]);
         }
     }
+    // one container file holding many content packs, re-opened again and again: streams of some threads
+    // run while other threads touch clusters (of other packs of the same file) for the first time
+    let nc = if ctx.quick() { 2 } else { 6 };
+    for k in 0..nc as u64 {
+        let case = (n + nr + nh) as u64 + k;
+        if ctx.wants(case) {
+            let mut crng = rng.fork(case);
+            crowd(ctx, case, &mut crng, [6usize, 12, 3, 24][k as usize % 4], [Comp::Zstd(1), Comp::Lz4(1), Comp::Lzma(0)][k as usize % 3]);
+        }
+    }
     for case in 0..n as u64 {
         let mut crng = rng.fork(case);
         if !ctx.wants(case) {
@@ -593,4 +603,145 @@ fn hammer(ctx: &mut Ctx, case: u64, rng: &mut Rng, nthreads: usize, comp: Comp) 
     ctx.sample(format!("no perturbation: {} threads x {} reads over {} clusters ({}), {} exact reads", nthreads, reads, nclusters, comp.name(), total));
     ctx.case_done(fnv(format!("hm{}{}", case, nthreads).as_bytes()), total > 0);
     let _ = std::fs::remove_dir_all(ctx.work.join(format!("c07-{}", case)));
+}
+
+
+/// One container *file* with many content packs (every pack has a raw cluster and a compressed cluster
+/// of a few blobs, the compressed one spanning many reads of its payload), opened several times; each
+/// time N threads read every content through streams with small buffers, in different orders, so that
+/// the first access to a cluster (its tail is loaded from the shared file) falls between two reads of
+/// other threads' streams and between two reads of a decoder's input.  No hook, no sleep.  Oracle only.
+fn crowd(ctx: &mut Ctx, case: u64, rng: &mut Rng, nthreads: usize, comp: Comp) {
+    use crate::container::{self, Item, Mode, Spec};
+    let npacks: u16 = if ctx.quick() { 8 } else { 14 };
+    let mut items = vec![];
+    for p in 1..=npacks + 1 {
+        let big = 60_000 + rng.below(120_000) as usize;
+        for (j, (len, hint, random)) in [(1500 + rng.below(3000) as usize, Hint::No, true), (big, Hint::Yes, true), (300 + rng.below(5000) as usize, Hint::No, false), (2000, Hint::Yes, false)].into_iter().enumerate() {
+            let data = if random { rng.bytes(len) } else { rng.low_entropy(len) };
+            items.push(Item { name: format!("p{}i{}", p, j).into_bytes(), num: p as u64 * 10 + j as u64, data, hint, pack: p });
+        }
+    }
+    let spec = Spec { mode: Mode::OneFile, comp, items, extra_packs: npacks, id_gap: 0, rev_extras: false };
+    let dir = ctx.work.join(format!("c07-{}", case));
+    std::fs::create_dir_all(&dir).unwrap();
+    let path = match util::guarded(|| container::build(&dir, "c", &spec)) {
+        Ok(Ok(p)) => p,
+        other => {
+            ctx.fail(case, "create", &format!("creation failed: {:?}", other));
+            return;
+        }
+    };
+    jbk::verif_hooks::set_hook(None);
+    let datas: Arc<Vec<(u16, Vec<u8>)>> = Arc::new(spec.items.iter().map(|i| (spec.pack_id(i.pack), i.data.clone())).collect());
+    let rounds = if ctx.quick() { 6 } else { 25 };
+    let mut total = 0u64;
+    for round in 0..rounds {
+        let c = match util::guarded(|| jbk::reader::Container::new(&path)) {
+            Ok(Ok(c)) => Arc::new(c),
+            other => {
+                ctx.fail(case, "open", &format!("container does not open: {:?}", other.map(|r| r.map(|_| ()).map_err(|e| util::err_kind(&e)))));
+                return;
+            }
+        };
+        // addresses through the index (single thread)
+        let addrs: Vec<jbk::ContentAddress> = match util::guarded(|| -> Result<Vec<jbk::ContentAddress>, String> {
+            let index = c.get_index_for_name("main").map_err(|e| format!("{:?}", e))?.ok_or("noindex")?;
+            let builder = jbk::reader::builder::AnyBuilder::new(index.get_store(c.get_entry_storage()).map_err(|e| format!("{:?}", e))?, c.get_value_storage().as_ref()).map_err(|e| format!("{:?}", e))?;
+            let mut v = vec![];
+            use jbk::reader::{EntryTrait, Range};
+            for i in 0..index.count().into_u32() {
+                let e = index.get_entry(&builder, jbk::EntryIdx::from(i)).map_err(|e| format!("{:?}", e))?.ok_or("noentry")?;
+                v.push(e.get_value("content").map_err(|e| format!("{:?}", e))?.ok_or("nocontent")?.as_content());
+            }
+            Ok(v)
+        }) {
+            Ok(Ok(v)) if v.len() == datas.len() => v,
+            other => {
+                ctx.fail(case, "entries", &format!("entries do not read: {:?}", other.map(|r| r.map(|v| v.len()))));
+                return;
+            }
+        };
+        let addrs = Arc::new(addrs);
+        let (tx, rx) = std::sync::mpsc::channel::<(usize, Option<String>, u64)>();
+        for t in 0..nthreads {
+            let c = Arc::clone(&c);
+            let datas = Arc::clone(&datas);
+            let addrs = Arc::clone(&addrs);
+            let tx = tx.clone();
+            let seed = rng.next() | 1;
+            std::thread::spawn(move || {
+                TRNG.with(|c| c.set(seed));
+                let n = datas.len();
+                let start = trand() as usize % n;
+                let stride = [1usize, n - 1, 3, 5, 7][trand() as usize % 5];
+                let mut done = 0u64;
+                let mut bad = None;
+                for k in 0..n {
+                    let id = (start + k * stride) % n;
+                    let res = std::panic::catch_unwind(std::panic::AssertUnwindSafe(|| -> Result<Vec<u8>, String> {
+                        let region = match c.get_bytes(addrs[id]).map_err(|e| format!("err:{}", util::err_kind(&e)))? {
+                            Some(jbk::reader::MayMissPack::FOUND(Some(r))) => r,
+                            _ => return Err("not-found".into()),
+                        };
+                        let mut st = region.stream();
+                        let mut v = Vec::with_capacity(datas[id].1.len());
+                        let mut buf = vec![0u8; 1 + trand() as usize % 700];
+                        loop {
+                            let k = st.read(&mut buf).map_err(|e| format!("io:{e}"))?;
+                            if k == 0 {
+                                break;
+                            }
+                            v.extend_from_slice(&buf[..k]);
+                            if v.len() > datas[id].1.len() + 16 {
+                                break;
+                            }
+                        }
+                        Ok(v)
+                    }));
+                    match res {
+                        Ok(Ok(v)) if v == datas[id].1 => done += 1,
+                        Ok(Ok(v)) => {
+                            bad = Some(format!("wrong-bytes\tmany packs in one file, round {round}: thread {t} streamed content {id} (pack {}): got {} bytes (fnv {:016x}) expected {} bytes (fnv {:016x}), first difference at {:?}", datas[id].0, v.len(), crate::out::fnv(&v), datas[id].1.len(), crate::out::fnv(&datas[id].1), v.iter().zip(datas[id].1.iter()).position(|(a, b)| a != b)));
+                            break;
+                        }
+                        Ok(Err(e)) => {
+                            bad = Some(format!("read-error\tmany packs in one file, round {round}: thread {t} content {id} (pack {}): {e}", datas[id].0));
+                            break;
+                        }
+                        Err(_) => {
+                            bad = Some(format!("panic\tmany packs in one file, round {round}: thread {t} content {id}: {}", util::take_panic()));
+                            break;
+                        }
+                    }
+                }
+                let _ = tx.send((t, bad, done));
+            });
+        }
+        drop(tx);
+        let deadline = std::time::Instant::now() + std::time::Duration::from_secs(120);
+        let mut done = 0;
+        while done < nthreads {
+            match rx.recv_timeout(deadline.saturating_duration_since(std::time::Instant::now())) {
+                Ok((_, bad, n)) => {
+                    done += 1;
+                    total += n;
+                    if let Some(b) = bad {
+                        let (sig, what) = b.split_once('\t').unwrap();
+                        ctx.fail(case, sig, what);
+                    }
+                }
+                Err(_) => break,
+            }
+        }
+        if done < nthreads {
+            ctx.fail(case, "timeout", &format!("many packs in one file: {} of {} reader threads did not finish within the bound", nthreads - done, nthreads));
+            break;
+        }
+    }
+    ctx.add("crowd_reads_ok", total);
+    ctx.count(&format!("crowd_threads:{}", nthreads));
+    ctx.sample(format!("many packs in one file: {} packs ({}), {} threads x {} openings, {} exact streamed reads", npacks + 1, comp.name(), nthreads, rounds, total));
+    ctx.case_done(fnv(format!("cr{}{}", case, nthreads).as_bytes()), total > 0);
+    let _ = std::fs::remove_dir_all(&dir);
 }
